@@ -155,6 +155,20 @@ def run_property(pid, tier='quick', seed=0):
             solver_s += o.seconds
             if o.status == 'refuted':
                 cex.append(('lemma:%s.%s' % (m, n), o.name, None, {'model': o.reason}))
+    # every trusted stub a proof used must exhibit its declared outcomes natively (DESIGN 3.9 item 5)
+    witnesses = {}
+    for sname in sorted(stubs_used):
+        wfn = _stubs.witnesses.get(sname) or _stubs.witnesses.get(sname.lstrip('.')) or _stubs.witnesses.get('.' + sname)
+        if wfn is None:
+            witnesses[sname] = 'no witness (documented assumption)'
+            continue
+        try:
+            okw = bool(wfn())
+        except Exception as e:      # noqa
+            okw = False
+        witnesses[sname] = 'exhibited' if okw else 'NOT exhibited'
+        if not okw:
+            errors.append(('stub:' + sname, 'the declared outcomes of this trusted stub could not be exhibited natively'))
     # named-obligation guard against vacuity
     exp_path = os.path.join(HERE, 'obligations', pid + '.json')
     have = {}
@@ -283,6 +297,8 @@ def run_property(pid, tier='quick', seed=0):
         'thorough_only_functions': list(prop.thorough_functions),
         'lemmas': ['%s.%s' % l for l in prop.lemmas],
         'callee_contracts_used': sorted(contracts_used),
+        'stub_witnesses': witnesses,
+        'trusted_contracts_used': sorted(c for c in contracts_used if (_reg.get(c) is not None and _reg.get(c).trusted)),
         'inlined_helpers': sorted(inlined),
         'backend': 'z3-solver 5.1.0 (python API), one solver per obligation',
         'solver_seconds': round(solver_s, 3),
